@@ -11,6 +11,7 @@ import (
 	"os"
 	"strconv"
 	"sync"
+	"syscall"
 	"time"
 
 	"gitlab.com/gomidi/midi/v2"
@@ -98,7 +99,23 @@ func histories(maxLen int) [][]int {
 	return out
 }
 
+// reap collects the helper processes the driver has killed and left behind
+// (it never waits for them; every open/close would otherwise leave a zombie
+// until this process ends, and a long pass runs into the system's process
+// limit). Called between histories only, when no driver call is in flight
+// that could be waiting for a child of its own.
+func reap() {
+	for {
+		var ws syscall.WaitStatus
+		pid, err := syscall.Wait4(-1, &ws, syscall.WNOHANG, nil)
+		if pid <= 0 || err != nil {
+			return
+		}
+	}
+}
+
 func run(h []int) (delivered int) {
+	defer reap()
 	drv, err := midicatdrv.New()
 	if err != nil {
 		panic(err)
